@@ -40,10 +40,11 @@ Definition sigA (g : vgraph) (t : ltab) (nk : list nsel) (ek : list esel) (P : p
   nkey g t nk v ++ [Z.of_nat (indeg g v); Z.of_nat (outdeg g v)] ++ map (cnt g v) P
   ++ concat (sort_tuples (map (ekey ek) (out_attrs g v))).
 
-(** _init_part: one cell when no key is selected, else buckets by the key tuple, sorted by key *)
+(** _init_part: one cell when no key is selected (no cell at all for the empty graph: repair ad4c809), else buckets by the key
+    tuple, sorted by key *)
 Definition init_partA (g : vgraph) (t : ltab) (nk : list nsel) : partition :=
   match nk with
-  | [] => [sortN (node_ids g)]
+  | [] => match node_ids g with [] => [] | _ => [sortN (node_ids g)] end
   | _ => map (fun k => sortN (filter (fun v => eqb lexleb (nkey g t nk v) k) (node_ids g)))
              (sort_dedup lexleb (map (nkey g t nk) (node_ids g)))
   end.
